@@ -20,7 +20,7 @@ func init() {
 		ID:      "C17",
 		Level:   "exploration",
 		Workers: 16,
-		Rule: "seeded histories over 2-3 collections created in a FRESH store (collection-number allocation is part of the mechanism), overlapping keys and several clients per collection; after every request the store diff is partitioned by owner (collection number in -_-Datatypes / -_-Operations / -_-Snapshots / -_-Clients, name for user collections): a request issued under collection A may touch only A-owned documents; foreign requests (a client registered in A naming collection B; a client of A first sending a client message that names B - which must be refused without changing anything - and then asking for B's datatype; packs carrying the DUID of a datatype of B with every option-bit combination, sent by a client at sequence 1 and by one further along) must leave B-owned documents untouched and must not return operations of B; the same key in two collections yields two datatypes, and the notifications a sync causes are published on <its own collection>/<key> with the id of that collection's datatype (never on the topic of the same key in another collection); ResetCollection(A) at random points removes every A-owned datatype, operation, snapshot and client document and the user collection A while the dump restricted to the other collections is identical; " +
+		Rule: "seeded histories over 2-3 collections created in a FRESH store (collection-number allocation is part of the mechanism), overlapping keys and several clients per collection; after every request the store diff is partitioned by owner (collection number in -_-Datatypes / -_-Operations / -_-Snapshots / -_-Clients, name for user collections): a request issued under collection A may touch only A-owned documents; foreign requests (a client registered in A naming collection B; a client of A first sending a client message that names B - which must be refused without changing anything - and then asking for B's datatype; packs carrying the DUID of a datatype of B with every option-bit combination, sent by a client at sequence 1 and by one further along) must leave B-owned documents untouched and must not return operations of B; a REST patch may touch only the collection it names; the same key in two collections yields two datatypes, and the notifications a sync causes are published on <its own collection>/<key> with the id of that collection's datatype (never on the topic of the same key in another collection); ResetCollection(A) at random points removes every A-owned datatype, operation, snapshot and client document and the user collection A while the dump restricted to the other collections is identical; " +
 			"non-trivial = at least two collections hold the same key and at least one request crossed the collection boundary; distinct = hash of the step script",
 		Assumptions: []string{
 			"MongoDB is the in-memory stand-in; volatile timestamps are ignored in diffs",
@@ -197,10 +197,37 @@ func runC17(c *core.Case) *core.Result {
 					}
 				}
 			}
-		case k < 8:
+		case k < 8 || (k == 8 && types[keys[0]] != "doc"):
 			d := cl.DTs[r.Intn(len(cl.DTs))]
 			c.Step("%s/%s local op", cl.Alias, d.Key)
 			crdt.Apply(d.DT, g.Op(wrapRep(d)))
+		case k == 8 && types[keys[0]] == "doc":
+			// a REST patch names a collection and a key: it may touch that collection only, also
+			// when the same key holds a document in another collection
+			col := cols[r.Intn(len(cols))]
+			target := crdt.JS(map[string]interface{}{"patched": g.Tag(), "n": r.Intn(100)})
+			before := c17Take(b, numToName)
+			c.Step("REST patch of %s/%s to %s", col, keys[0], target)
+			out := bed.Guard(15e9, func(ctx context.Context) error {
+				_, err := b.Svc.PatchDocument(ctx, &model.PatchMessage{Collection: col, Key: keys[0], Json: target})
+				return err
+			})
+			if out.Panic != "" {
+				return c.Violation("server-panic", "PatchDocument panicked: %s", out.Panic)
+			}
+			if out.TimedOut {
+				return c.Inconclusive("PatchDocument watchdog")
+			}
+			if !b.Idle(20e9) {
+				return c.Inconclusive("idle")
+			}
+			for owner, docs := range c17Touched(before, c17Take(b, numToName)) {
+				if owner != col && owner != "" {
+					sort.Strings(docs)
+					return c.Violation("patch-touched-foreign", "a REST patch of %s/%s changed documents owned by %q: %v", col, keys[0], owner, docs)
+				}
+			}
+			c.Count("rest_patches_with_partitioned_diff", 1)
 		case k < 15:
 			// normal sync: may touch only the client's own collection
 			req := cl.BuildRequest()
